@@ -154,6 +154,8 @@ WHERE1 = [
     "a = 1 or b = 1", "a > 0 and b > 0", "a >= 1 and a < 3", "a > 1 and a < 1", "a = b", "a <> b", "1 = 1", "a = 1 and a = 2",
     "b > 1 and b > 0", "a >= 2 and a > 2", "not (a = 1 or b = 1)", "a + 0 > 1", "(a > 1) = (b > 1)", "a is null or b is null",
     "a > 2 or a < 2", "b = 1 and a = b",
+    # a key range next to a range on the other column, bounded on the opposite side (ranges of different columns must stay apart)
+    "a > 1 and b < 2", "b < 2 and a > 1", "a < 3 and b > 1", "a >= 2 and b <= 1", "a > 0 and b < 3 and b > 0",
 ]
 AGGS = [
     "count(*)", "count(b)", "sum(b)", "min(b), max(b)", "count(distinct b)", "count(*), sum(b), min(a)",
@@ -247,6 +249,17 @@ def queries(tier):
     out.append(q("select distinct d from t3", feat=["string", "distinct"]))
     out.append(q("select a, d from t3 order by d, a", okeys=[(1, False), (0, False)], feat=["string", "order"]))
     out.append(q("select max(d), min(d), count(d) from t3", feat=["string", "agg"]))
+    # string-valued expressions (CASE with string / boolean branches, concatenation, LIKE, IN lists of strings)
+    out.append(q("select a, case when d = 'x' then 'is-x' else d end from t3", feat=["string-expr"]))
+    out.append(q("select a, case when a > 1 then 'big' else 'small' end from t3", feat=["string-expr"]))
+    out.append(q("select a, case when a > 1 then d end from t3", feat=["string-expr"]))
+    out.append(q("select a, case when d is null then a > 1 else d = 'x' end from t3", feat=["string-expr"]))
+    out.append(q("select a, d || '!' , d || d from t3", feat=["string-expr"]))
+    out.append(q("select a from t3 where d like 'x%' or d like '_'", feat=["string-expr"]))
+    out.append(q("select a, d from t3 where d in ('x', 'z')", feat=["string-expr"]))
+    out.append(q("select a, d from t3 where d not in ('x', 'z')", feat=["string-expr"]))
+    out.append(q("select case when d = 'x' then 'is-x' else 'other' end, count(*) from t3 group by case when d = 'x' then 'is-x' else 'other' end", feat=["string-expr", "groupby-expr"]))
+    out.append(q("select a, d from t3 where a = '2'", sqlite=False, feat=["string-expr"]))
     # ---- level 2: joins
     for jt in JOIN_TYPES:
         for on in JOIN_ON:
